@@ -239,3 +239,51 @@ Inductive reachable (m : mode) : list A -> Prop :=
   | R_insert L r L' : reachable m L -> region_ok r -> insert_region m L r = Val (Ok L') -> reachable m L'
   | R_remove L b s L' r : reachable m L -> remove_region L b s = Val (Ok (L', r)) -> reachable m L'.
 End Generic.
+
+(* ------------------------------------------------------------------------------------------
+   Every public constructor route of a region (added for C10: the decision of GuestRegionMmap::new
+   applies to each of them, in the standard AND in the Xen build).
+
+   src/mmap/mod.rs:136-152 (standard build)  GuestRegionMmap::from_range(addr, size, file)
+       let region = if let Some(ref f_off) = file { MmapRegion::from_file(f_off.clone(), size) }
+                    else { MmapRegion::new(size) }.map_err(Error::MmapRegion)?;
+       Self::new(region, addr)
+   src/mmap/mod.rs:154-169 (Xen build)       GuestRegionMmap::from_range(addr, size, file)
+       let range = MmapRange::new_unix(size, file, addr);
+       let region = MmapRegion::from_range(range).map_err(Error::MmapRegion)?;
+       Self::new(region, addr)
+   Both are "the mapping step, then Self::new(region, addr)".  The mapping step of a request WITH a
+   file runs check_file_offset (mod.rs:81-101: start.checked_add(size) / filesize < end) before the
+   mmap - MmapRegionBuilder::build (unix.rs:139-144) resp. MmapXenUnix::new (xen.rs:529-531); every
+   failure of it is Error::MmapRegion(_).  `flen` = the length of the file (an OS fact). *)
+Section Routes.
+Context {A : Type}.
+Definition mmap_region_file (start flen size : N) : result N :=
+  match checked_add start size with
+  | None => Err EMmapRegion                                  (* InvalidOffsetLength  mod.rs:97 *)
+  | Some e => if flen <? e then Err EMmapRegion              (* MappingPastEof       mod.rs:93 *)
+              else mmap_region_new size                      (* mmap(2): length 0 is refused *)
+  end.
+(* file = Some (start, flen) *)
+Definition region_from_range_opt (mk : N -> N -> A) (base size : N) (file : option (N * N)) : result A :=
+  match (match file with
+         | Some (start, flen) => mmap_region_file start flen size
+         | None => mmap_region_new size end) with
+  | Err e => Err e                                           (* `?` *)
+  | Ok sz => region_new mk base sz                           (* Self::new(region, addr) *)
+  end.
+(* src/mmap/mod.rs:391-406  from_ranges_with_files(ranges):
+     Self::from_regions(ranges.into_iter().map(|x| GuestRegionMmap::from_range(x.0, x.1, x.2.clone()))
+                              .collect::<Result<Vec<_>, Error>>()?)
+   (from_ranges, :385-387, is from_ranges_with_files with every file None) *)
+Fixpoint collect_ranges_files (mk : N -> N -> N -> A) (id : N) (l : list (N * N * option (N * N))) {struct l}
+  : result (list A) :=
+  match l with
+  | [] => Ok []
+  | (s, len, file) :: t =>
+      match region_from_range_opt (mk id) s len file with
+      | Err e => Err e
+      | Ok g => match collect_ranges_files mk (id + 1) t with Err e => Err e | Ok r => Ok (g :: r) end
+      end
+  end.
+End Routes.
